@@ -242,7 +242,7 @@ def h_isolation(fa, fb, order, N, kind):
     return body
 
 
-def h_isolation_cfg(txt, fa, fb, pa, pb, order, N, mode='offline'):
+def h_isolation_cfg(txt, fa, fb, pa, pb, order, N, mode='offline', ua=None, ub=None):
     """two objects with the SAME specification text and different per-object configuration (sampling period): what one object
     computes must not leak into the other through state that lives outside the objects.  Solo runs in the same process would
     be polluted the same way, so every call is compared with the README semantics of the text under that object's own period
@@ -259,7 +259,7 @@ def h_isolation_cfg(txt, fa, fb, pa, pb, order, N, mode='offline'):
         got_all = []
         for c in order:
             if c not in objs:                                  # an object is built right before its first call
-                objs[c] = dt.make_spec(kind, 'out = ' + txt, vs, period=list(pa if c == 'a' else pb))
+                objs[c] = dt.make_spec(kind, 'out = ' + txt, vs, period=list(pa if c == 'a' else pb), unit=(ua if c == 'a' else ub))
             f = fa if c == 'a' else fb
             w = dt.trace(env, vs, N, prefix='%s%d_' % (c, cnt[c]))
             if mode == 'offline':
@@ -385,5 +385,11 @@ def obligations(tier, rng):
                                 ('(x) since[1000ms:2s] (y)', ('since_t', X, Y, 1, 2), ('since_t', X, Y, 2, 4), (1000, 'ms'), (500, 'ms'))]:
         for order in ['aba', 'abab', 'baa']:
             out.append(ob('C11', 'isolation_cfg', 'iso-cfg/dt-offline/%s/%s|%s/%s' % (txt, pa, pb, order), txt=txt, fa=fa, fb=fb, pa=list(pa), pb=list(pb), order=order, N=5))
+    # same text and same sampling period, different DEFAULT UNITS: unit-less bounds mean other durations for the two objects
+    for txt, fa, fb, per, ua, ub in [('once[0,2000](x)', ('once_t', X, 0, 2), ('once_t', X, 0, 2000), (1, 's'), 'ms', 's'),
+                                     ('(x) since[0,4] (y)', ('since_t', X, Y, 0, 2), ('since_t', X, Y, 0, 2000), (2, 'ms'), 'ms', 's')]:
+        for order in ['aba', 'bab']:
+            out.append(ob('C11', 'isolation_cfg', 'iso-unit/dt-offline/%s/P=%s/%s|%s/%s' % (txt, per, ua, ub, order), txt=txt, fa=fa, fb=fb, pa=list(per), pb=list(per), ua=ua, ub=ub,
+                          order=order, N=4, wall=300))
     out.append(ob('C11', 'hashseed', 'hashseed/%d-seeds' % (3 if quick else 16), seeds=list(range(3 if quick else 16)), validate=0, wall=1200))
     return out
